@@ -5,10 +5,11 @@
 // commission-rate / missed-vote-penalty activity.  Whenever the platform
 // would start a reward calculation on a new (Back2, Reward) pair
 // (iiss.updateCalculator), the harness reads that pair back into its own
-// Input form (extract), checks that it is a well-formed term (checkWF — the
-// hypothesis of the theorems is what the pipeline really produces), runs the
-// real iiss4Reward.Calculate on the very same snapshots and emits the case
-// for the model comparison and the direct oracle.
+// Input form (extract), notes whether it is a well-formed term (checkWF — the
+// hypothesis of the theorems), runs the real iiss4Reward.Calculate on the very
+// same snapshots and emits the case for the model comparison and the direct
+// oracle.  A calculation that fails credits nothing (property holds): it is
+// counted in a generator note and kept out of the model comparison.
 package main
 
 import (
@@ -296,6 +297,7 @@ func genIcsim(c *hxlib.Ctx, label string, nTerms int) {
 	sim := d.sim
 	seen := map[string]bool{}
 	emitted := 0
+	failedCalcs := 0
 	observe := func() {
 		back, base := icsim.VerifC35CalcInputs(sim)
 		if back == nil || base == nil {
@@ -320,13 +322,25 @@ func genIcsim(c *hxlib.Ctx, label string, nTerms int) {
 			return
 		}
 		cs := hxlib.Case{Kind: "term-icsim", Input: in, Nontrivial: nontrivial(in, o), OracleErr: oracle(in, o)}
+		wf := checkWF(in)
+		if !wf {
+			c.Note("icsim %s: calculator input at height %d is not a well-formed term (%s); only the budget inequality is checked on it",
+				label, sim.BlockHeight(), whyNotWF(in))
+		}
 		switch {
-		case o.calcErr != nil && checkWF(in):
+		case o.calcErr != nil && wf:
 			// A failure on a well-formed pipeline term comes from a part of Calculate the model does not
-			// cover (processClaim / processBTP / processCommissionRate) or is a defect; either way it is
-			// reported by the oracle above and takes no part in the model comparison.
+			// cover (processClaim / processBTP / processCommissionRate, e.g. "Non PRep set the commission
+			// rate", docs/notes/C35.md).  Nothing is credited, so the property holds; the term is counted
+			// here and takes no part in the model comparison.
 			cs.Key = key
-			c.Note("icsim %s: calculation failed at height %d: %v", label, sim.BlockHeight(), o.calcErr)
+			cs.Nontrivial = false
+			failedCalcs++
+			c.Note("icsim %s: reward calculation failed at height %d, nothing credited (term kept out of the model comparison): %v",
+				label, sim.BlockHeight(), o.calcErr)
+		case !wf:
+			// outside the model's stated domain (e.g. duplicate targets): budget check only
+			cs.Key = key
 		case !c.OracleOnly:
 			cs.Coq = coqCase(in, o, obsTweak{})
 		default:
@@ -381,5 +395,8 @@ func genIcsim(c *hxlib.Ctx, label string, nTerms int) {
 	}
 	if emitted == 0 {
 		c.Note("icsim %s: no IISS-4 calculator input observed", label)
+	}
+	if failedCalcs > 0 {
+		c.Note("icsim %s: %d of %d pipeline terms had a failing calculation", label, failedCalcs, emitted)
 	}
 }
